@@ -34,6 +34,7 @@ func TestMain(m *testing.M) {
 	vh.Rule(fmt.Sprintf("rapid, per package kind (the 30 kinds of LookupPackage in narrow and wide variants as in C06, rows/params over all data types with their format in force, ORDERBY after a row format; plus CURCLOSE and OPTIONCMD which are parsers not reachable from LookupPackage and are constructed directly, plus KEY with every data type that has a 0- or 1-byte length prefix): a package description is drawn (half of the cases with the short-strings context so that most encodings stay below %d bytes), encoded by the independent reference codec, and then EVERY proper prefix 1 <= cut < len of the encoding of the package under test is evaluated; for encodings longer than %d bytes: every cut up to %d, every field boundary of the reference encoding -1/+0/+1 and %d cuts drawn from a seed that is part of the case. Every prefix is fed (1) as one packet behind the preceding packages into a real tds.PacketQueue (the preceding packages are consumed by the library first), (2) for prefixes <= %d bytes as 1-byte packets, (3) for kinds known to LookupPackage and encodings <= %d bytes through Channel.WritePacket of a hooked Conn as a prefix packet and a remainder packet with EOM. A prefix evaluation is non-trivial when the cut lies strictly inside a field of the reference encoding (not between two fields); distinct by (kind, field kind token/length/count/string/value/fixed, index of the field, position of the cut in the field first/mid/last, field length class); labels pair:<kind>/<field kind> list the pairs hit, labels cuttable:<kind>/<field kind> the pairs that exist in a generated encoding with a field of 2 or more bytes (a 1-byte field such as the token cannot be cut inside)", exhaustiveLen, exhaustiveLen, exhaustiveLen, randomCuts, bytePacketMax, channelMax))
 	vh.Assume("the reference codec (my reading of the TDS 5.0 token layouts, shared with C06) defines what a valid encoding is and where its fields begin and end; only valid encodings are cut (a LANGUAGE with a length field < 1 and unknown tokens handled by TokenlessPackage are out of scope); the complete encoding must parse (C06's domain) - a complete encoding that is rejected is reported under its own class; KEY is laid out as data type dependent raw bytes with a 1-byte length for the variable-length types (text/image and the 4-byte-prefixed types are not generated for KEY); packages are compared with reflect.DeepEqual except that float members are compared by bit pattern (NaN)")
 	vh.Rule("also: large packages (row / parameter with a LONGBINARY or LONGCHAR value, wide row format with hundreds of columns; 1 KB..300 KB, 1 MB in the thorough tier) in packets of 100..1016 body bytes: after every packet nothing of a package is delivered and no error queued before its last byte; then exactly the sent fields")
+	vh.Rule("also: a header-only control packet (PROTACK) between the two halves; the two halves delivered through the connection's reader with one or two empty packets between them")
 	vh.Main(m, "C07")
 }
 
